@@ -138,6 +138,8 @@ inline json world_of(const Tree &t)
 	fs.push_back({{"path", "/t/adir"}, {"kind", "dir"}});
 	fs.push_back({{"path", "/t/noperm.conf"}, {"kind", "noperm"}});
 	fs.push_back(fs_file("/t/good.conf", "# good\n"));
+	fs.push_back({{"path", "/t/sub"}, {"kind", "dir"}});
+	fs.push_back(fs_file("/t/sub/good.conf", "# good too\n"));
 	json w;
 	w["fs"] = fs;
 	w["passwd"] = json::array({{{"name", "u"}, {"uid", 1000}, {"dir", "/t"}}});
